@@ -169,7 +169,7 @@ fn main() {
                 break;
             }
             if args.budget_ms != u64::MAX
-                && (ran & 15) == 0
+                && (cfg!(miri) || (ran & 15) == 0)
                 && t0.elapsed().as_millis() as u64 > args.budget_ms
             {
                 cut = true;
